@@ -286,12 +286,21 @@ def r17_5(run):
                message='parseStreamServer raises %s after starting %s' % (src(r.ast)[:40], [src(s.ast)[:40] for s in before]))
 
 
+def r17_7(run):
+    """listen() resolves only after *this service's* descriptor wait is over: the wait's matcher and the
+    armed-before-command order are the C15 rules, borrowed here because listen() is their only public caller"""
+    from . import c15
+    borrow(run, c15.r15_1, 'R17.7')
+    borrow(run, c15.r15_5, 'R17.7')
+
+
 def r17_6(run):
     k = dropped_deferreds(run, 'R17.6', [LU(run)], 'listen()')
     run.floor('R17.6', 'suspension points in listen', k, 4)
 
 
 RULES = [
+    ('R17.7', 'the descriptor wait listen() depends on is keyed on this service and armed before the creating command (rules R15.1/R15.5 borrowed)', r17_7),
     ('R17.6', 'no dropped Deferred in listen(): config, bind and creation are awaited in order', r17_6),
     ('R17.1', 'constant folding: the local listener description is tcp:0 on a loopback interface', r17_1),
     ('R17.2', 'sibling agreement of the four create() legs: mapping "<public> 127.0.0.1:<bound local port>", creator selected by (ephemeral, auth), options passed through', r17_2),
